@@ -85,6 +85,17 @@ def _r121(ctx: Ctx) -> None:
                 if isinstance(t, ast.Name):
                     aliases.add(t.id)
     opens = [(c, p, md) for c, p, md in _open_calls(fn) if _is_write(md)]
+    # writers reached through a helper of the same module: g(..., path, ...) where g opens that parameter for writing
+    for c in walk_no_nested(fn):
+        if isinstance(c, ast.Call) and isinstance(c.func, ast.Name) and c.func.id in mi.functions and c.func.id != fn.name:
+            g = mi.functions[c.func.id]
+            gparams = [a.arg for a in g.args.args]
+            for gc, gp, gmd in _open_calls(g):
+                if _is_write(gmd) and isinstance(gp, ast.Name) and gp.id in gparams:
+                    k_ = gparams.index(gp.id)
+                    arg = c.args[k_] if k_ < len(c.args) else next((kw.value for kw in c.keywords if kw.arg == gp.id), None)
+                    if arg is not None:
+                        opens.append((c, arg, gmd))
     ctx.need(opens, 'R12.1', site, 'save_json: no write-mode open found')
     temp_names = set()
     for c, p, md in opens:
